@@ -226,6 +226,7 @@ pub fn c01(cfg: &Cfg, idx: u64, st: &mut Stats) {
             bulk_stream: false,
             rejects: 0,
             reject_run: 0,
+            threads: 1,
         };
         st.report("C01", &Case::MemBuild(case));
         return;
@@ -267,6 +268,7 @@ pub fn c01(cfg: &Cfg, idx: u64, st: &mut Stats) {
             bulk_stream: false,
             rejects: 0,
             reject_run: 0,
+            threads: 1,
         };
         st.report("C01", &Case::MemBuild(case));
         return;
@@ -281,6 +283,16 @@ pub fn c01(cfg: &Cfg, idx: u64, st: &mut Stats) {
         gen::legal_task(&mut rng, if big { 400 } else { 40 })
     };
     let shape = if rng.chance(1, 2) { Shape::Full } else { gen::benign_shape(&mut rng) };
+    let mut task = task;
+    if rng.chance(1, 12) {
+        // every key 60..130 bytes longer (a common prefix): short random
+        // tails over a small alphabet then make consecutive long keys that
+        // are prefixes / extensions / near copies of each other
+        let plen = *rng.pick(&[60usize, 63, 64, 65, 100, 127, 128, 130]);
+        let prefix: Vec<u8> = (0..plen).map(|i| b'a' + (i % 5) as u8).collect();
+        gen::lengthen(&mut task.ops, &prefix);
+        st.count("probe.c01_all_keys_longer_than_60_bytes", 1);
+    }
     let case = BuildCase {
         task,
         bufcap: if rng.chance(1, 4) { gen::bufcap(&mut rng) } else { None },
@@ -640,6 +652,7 @@ pub fn c11(cfg: &Cfg, idx: u64, st: &mut Stats) {
             bulk_stream: false,
             rejects: 0,
             reject_run: 0,
+            threads: 1,
         };
         st.report("C11", &Case::MemBuild(case));
         return;
@@ -1224,6 +1237,7 @@ pub fn c08(cfg: &Cfg, idx: u64, st: &mut Stats) {
             bulk_stream: false,
             rejects: 0,
             reject_run: 0,
+            threads: 1,
         };
         st.report("C08", &Case::MemBuild(case));
         return;
@@ -1619,6 +1633,7 @@ pub fn c13_cases(cfg: &Cfg) -> Vec<MemBuildCase> {
                     bulk_stream: false,
                     rejects: 0,
                     reject_run: 0,
+                    threads: 1,
                 });
             }
         }
@@ -1636,6 +1651,7 @@ pub fn c13_cases(cfg: &Cfg) -> Vec<MemBuildCase> {
             bulk_stream: false,
             rejects: 0,
             reject_run: 0,
+            threads: 1,
         });
     }
     // an unbounded number of DISTINCT wide nodes (leaf fans of 33..64 last
@@ -1653,6 +1669,7 @@ pub fn c13_cases(cfg: &Cfg) -> Vec<MemBuildCase> {
             bulk_stream: false,
             rejects: 0,
             reject_run: 0,
+            threads: 1,
         });
     }
     for (i, g) in [Some((64usize, 2usize)), None, Some((1, 1))].iter().enumerate() {
@@ -1667,6 +1684,7 @@ pub fn c13_cases(cfg: &Cfg) -> Vec<MemBuildCase> {
             bulk_stream: false,
             rejects: 0,
             reject_run: 0,
+            threads: 1,
         });
     }
     // the opposite extreme: complete F-ary trees (keylen == counter width),
@@ -1683,6 +1701,7 @@ pub fn c13_cases(cfg: &Cfg) -> Vec<MemBuildCase> {
             bulk_stream: false,
             rejects: 0,
             reject_run: 0,
+            threads: 1,
         });
     }
     // one bulk call over a large slice (exact size hint) instead of a loop
@@ -1698,6 +1717,7 @@ pub fn c13_cases(cfg: &Cfg) -> Vec<MemBuildCase> {
             bulk_stream: false,
             rejects: 0,
             reject_run: 0,
+            threads: 1,
         });
     }
     // one extend_stream call fed by the stream of a large source FST
@@ -1713,6 +1733,7 @@ pub fn c13_cases(cfg: &Cfg) -> Vec<MemBuildCase> {
             bulk_stream: true,
             rejects: 0,
             reject_run: 0,
+            threads: 1,
         });
     }
     // refused inserts in between the accepted ones (a smaller key; for maps
@@ -1729,6 +1750,7 @@ pub fn c13_cases(cfg: &Cfg) -> Vec<MemBuildCase> {
             bulk_stream: false,
             rejects: if i == 0 { 0 } else { 2 + i as u32 },
             reject_run: [150_000, 0, 100_000][i],
+            threads: 1,
         });
     }
     // sectioned streams: a vocabulary of tails that fits the cache is found
@@ -1754,6 +1776,23 @@ pub fn c13_cases(cfg: &Cfg) -> Vec<MemBuildCase> {
             bulk_stream: false,
             rejects: 0,
             reject_run: 0,
+            threads: 1,
+        });
+    }
+    // the builder handed back and forth between two long-lived threads
+    for (i, map) in [false, true].iter().enumerate() {
+        out.push(MemBuildCase {
+            fam: KeyFamily { n: 120_000, fanout: 26, keylen: 40 + 20 * i as u32, seed: seed ^ 0x7172 ^ i as u64, pairs: false, leaf_fan: 0, decreasing: false, repeat: 1, sec_vocab: 0, sec_parents: 0 },
+            map: *map,
+            registry: None,
+            bufcap: None,
+            every: 1000,
+            shape: Shape::Full,
+            bulk: false,
+            bulk_stream: false,
+            rejects: 0,
+            reject_run: 0,
+            threads: 2,
         });
     }
     // long keys with distinct tails (65 .. 1000 bytes: deeper than any
@@ -1770,6 +1809,7 @@ pub fn c13_cases(cfg: &Cfg) -> Vec<MemBuildCase> {
             bulk_stream: false,
             rejects: 0,
             reject_run: 0,
+            threads: 1,
         });
     }
     // one builder that emits more than 64 MiB (2^26 bytes), and one more than
@@ -1786,6 +1826,7 @@ pub fn c13_cases(cfg: &Cfg) -> Vec<MemBuildCase> {
             bulk_stream: false,
             rejects: 0,
             reject_run: 0,
+            threads: 1,
         });
     }
     // sets fed long runs of one and the same key (a legal no-op each time)
@@ -1801,6 +1842,7 @@ pub fn c13_cases(cfg: &Cfg) -> Vec<MemBuildCase> {
             bulk_stream: false,
             rejects: 0,
             reject_run: 0,
+            threads: 1,
         });
     }
     if cfg.tier == Tier::Thorough {
@@ -1816,6 +1858,7 @@ pub fn c13_cases(cfg: &Cfg) -> Vec<MemBuildCase> {
                 bulk_stream: false,
                 rejects: 0,
                 reject_run: 0,
+                threads: 1,
             });
         }
         for (f, l) in [(2u32, 40u32), (10, 16), (64, 24), (256, 64), (256, 8)] {
@@ -1831,6 +1874,7 @@ pub fn c13_cases(cfg: &Cfg) -> Vec<MemBuildCase> {
                     bulk_stream: false,
                     rejects: 0,
                     reject_run: 0,
+                    threads: 1,
                 });
             }
         }
@@ -1846,6 +1890,7 @@ pub fn c13_cases(cfg: &Cfg) -> Vec<MemBuildCase> {
                 bulk_stream: false,
                 rejects: 0,
                 reject_run: 0,
+                threads: 1,
             });
         }
     }
